@@ -62,6 +62,15 @@ class _Interrupt(Exception):
     pass
 
 
+def parallel_build(cat, b, force):
+    """build_trees on two real worker processes"""
+    if cw.BINNINGS[b] is None:
+        cat.build_trees(None, force=force, max_workers=2)
+    else:
+        edges, closed = cw.BINNINGS[b]
+        cat.build_trees(edges, closed=closed, force=force, max_workers=2)
+
+
 def interrupted_build(cat, b):
     """build_trees that is interrupted (exception) when the second patch is about to be built."""
     from yaw.catalog import trees as trees_mod
@@ -132,6 +141,11 @@ def run(ctx) -> None:
     for _ in range(12 if quick else 80):
         a, b, u = rng.choice(names), rng.choice(names), rng.choice(names)
         hist.append([("build", a, False), ("ibuild", b, False), ("use", rng.choice([b, u]), False)])
+    # histories in which a build runs on a REAL pool of worker processes between in-process measurements
+    # (state cached in the parent process must not survive a rebuild done by child processes)
+    for _ in range(4 if quick else 30):
+        a, b = rng.sample(names, 2)
+        hist.append([("use", a, False), ("pbuild", b, rng.random() < 0.3), ("use", b, False)])
     if quick and len(hist) > 160:
         head = hist[-45:]
         hist = rng.sample(hist[:-45], 115) + head
@@ -169,6 +183,9 @@ def run(ctx) -> None:
                     elif op == "ibuild":
                         interrupted_build(cat, b)
                         got = None
+                    elif op == "pbuild":
+                        parallel_build(cat, b, force)
+                        got = None
                     else:
                         got = cw.measure(work, b, aux)
                 except Exception as exc:  # noqa: BLE001
@@ -179,6 +196,8 @@ def run(ctx) -> None:
                     kind = "same_edges_other_closed_side" if any({pb, b} == {"A", "A2"} for _, pb, _ in prev) else "other"
                     if any(o == "ibuild" for o, _, _ in prev):
                         kind = "interrupted_build"
+                    if any(o == "pbuild" for o, _, _ in prev):
+                        kind = "build_in_worker_processes"
                     ctx.violation(f"C07|measure|after_{kind}|result_differs_from_fresh_cache", dict(history=h, step=si, binning=b))
                     break
                 # projection of the real cache vs the model state
